@@ -43,7 +43,7 @@ Reach(g, r) == ReachF(g, r, NumNodes(g) - 1)
 (* nil-ness and edge labels agree, recursively.  A nil slice / map and an empty one are DIFFERENT: the    *)
 (* generated DeepCopyInto functions only allocate under `if in.X != nil`, so nil stays nil and empty      *)
 (* stays empty-but-allocated, and a copy that changed one into the other would not be "equal" for a       *)
-(* caller that tests `x == nil` (the codecs do: a nil Value contents / nil column means NULL).            *)
+(* caller that tests `x == nil` (the codecs do: WriteBytes encodes nil as NULL, empty as length 0).       *)
 (* Capacity is not compared (not observable through the value).  Fuel as above; a graph that runs out of  *)
 (* fuel is cyclic and is rejected, real snapshots of these types are trees or DAGs.                       *)
 SameShape(n, m) ==
